@@ -63,6 +63,17 @@ func c18Decode(idx int) c18Vec {
 	return c18Vec{v[0], v[1], v[2], v[3], v[4], v[5], v[6], v[7], v[8], v[9]}
 }
 
+func c18Encode(v c18Vec) int {
+	d := c18Dims()
+	vals := []int{v.Editable, v.Role, v.DescRole, v.Datatable, v.Nested, v.Shape, v.Header, v.Cell, v.Summary, v.Object}
+	idx, mul := 0, 1
+	for i := range d {
+		idx += vals[i] * mul
+		mul *= d[i]
+	}
+	return idx
+}
+
 func (v c18Vec) String() string {
 	return fmt.Sprintf("editable=%s role=%q descendant-role=%q datatable=%q nested=%s shape=%s header=%s cell=%s summary=%s object=%s",
 		c18Editable[v.Editable], c18Role[v.Role], c18DescRole[v.DescRole], c18Datatable[v.Datatable], c18Nested[v.Nested], c18ShapeName[v.Shape],
@@ -468,7 +479,9 @@ func checkC18(c *Case) (*Violation, caseInfo) {
 		}
 	}
 	// API level: the table follows a long retained paragraph
-	if ex.API {
+	// (always for tables decided by the embedded-object rule: it is the one rule that depends on what
+	// the converter's working copy of the page still contains)
+	if ex.API || deciding == 13 {
 		// two tables in one document, distilled in one call: each must be kept iff its own verdict is data
 		v2 := "fixed 3x4 predecessor with a scope cell"
 		d2, _ := html.Parse(strings.NewReader("<html><body>" + c18Predecessor + "</body></html>"))
@@ -489,8 +502,8 @@ func checkC18(c *Case) (*Violation, caseInfo) {
 		// an editable element that is no ancestor of the table (it is empty, and closed long before
 		// the table starts) says nothing about the table
 		apiPage := v.page(2)
-		if ex.Index%2 == 0 {
-			apiPage = strings.Replace(apiPage, "<body>", `<body><div contenteditable="true"></div><p contenteditable="true"></p>`, 1)
+		if ex.Index%2 == 0 || deciding == 13 {
+			apiPage = strings.Replace(apiPage, "<body>", `<body><svg width="0" height="0"><symbol id="i"><path d="M0 0"/></symbol></svg><div contenteditable="true"></div><p contenteditable="true"></p>`, 1)
 			info.Classes = append(info.Classes, "api-level-after-empty-editable")
 		}
 		_, out := applyHTML(apiPage, OptSpec{})
@@ -528,6 +541,21 @@ func TestC18(t *testing.T) {
 	seed := envSeed()
 	total := c18Total()
 	n := 0
+	// a fixed core that every run visits, whatever its slice: the plain tables that only the late rules
+	// decide (cell count, embedded object, default), with every kind of embedded object
+	if shard == 0 {
+		for _, shape := range []int{3, 5, 6, 7} { // 2x4, 5x2 (10 cells), ragged 11 cells, 3x4
+			for obj := range c18Object {
+				idx := c18Encode(c18Vec{Shape: shape, Object: obj})
+				n++
+				c := &Case{Property: "C18", Kind: "vector"}
+				c.SetExtra(c18Extra{Index: idx, API: true, Hidden: true})
+				if v := evalCase(c, checkC18); v != nil {
+					t.Fatalf("property C18 violated [%s]: %s", v.Signature, v.Detail)
+				}
+			}
+		}
+	}
 	for idx := 0; idx < total; idx++ {
 		if idx%nshards != shard {
 			continue
@@ -539,7 +567,10 @@ func TestC18(t *testing.T) {
 		}
 		n++
 		c := &Case{Property: "C18", Kind: "vector"}
-		c.SetExtra(c18Extra{Index: idx, API: mixIndex(idx+7)%97 == 0, Hidden: mixIndex(idx+13)%8 == 0})
+		// the API-level sample is denser for tables that hold a frame (the rule that looks at it is
+		// the one that depends on what the converter's working copy still contains)
+		api := mixIndex(idx+7)%97 == 0 || (c18Decode(idx).Object == 4 && mixIndex(idx+3)%11 == 0)
+		c.SetExtra(c18Extra{Index: idx, API: api, Hidden: mixIndex(idx+13)%8 == 0})
 		c.HTML = "" // rendered from the index
 		if v := evalCase(c, checkC18); v != nil {
 			t.Fatalf("property C18 violated [%s]: %s", v.Signature, v.Detail)
